@@ -202,18 +202,21 @@ def processIO (w : World) : World × List Ev :=
 def grantAll (users : AMap U) : List (Option Nat) → AMap U
   | [] => users
   | none :: r => grantAll users r
-  | some u :: r => grantAll (upd users u { users.get u with turn := true }) r
+  | some u :: r =>
+    if NV.Gen.C12.grantCond true then grantAll (upd users u { users.get u with turn := true }) r
+    else grantAll users r
 
-def connectedUsers (w : World) : Nat := (w.slots.filter Option.isSome).length
+def connectedUsers (w : World) : Nat := (w.slots.filter (fun s => NV.Gen.C12.countCond s.isSome)).length
 
 def hasPending (w : World) : Bool :=
   w.slots.any (fun s => match s with | some u => (w.users.get u).cmdInBuf | none => false)
 
 /-! ### get_user_command -/
 
-/-- `if (s_next_user-- == 0) s_next_user = max_users - 1;` -/
+/-- `if (s_next_user-- == 0) s_next_user = max_users - 1;` - the expression is regenerated from the source
+    (`Gen.cursorNext`, see `Lemmas.cursorNext_spec`) -/
 def decCursor (w : World) : World :=
-  { w with cursor := if w.cursor = 0 then w.slots.length - 1 else w.cursor - 1 }
+  { w with cursor := NV.Gen.C12.cursorNext w.cursor w.slots.length }
 
 /-- outcome of one iteration of the `for (i = 0; i < max_users; i++)` loop of get_user_command -/
 inductive ScanRes where
@@ -248,7 +251,7 @@ def scan : Nat → World → World × Option (Nat × List Char)
 
 /-- get_user_command: the user served and the command text handed to the mudlib -/
 def getUserCommand (w : World) : World × Option (Nat × List Char) :=
-  match scan w.slots.length w with
+  match scan (NV.Gen.C12.scanLength w.slots.length) w with
   | (w1, none) => (w1, none)
   | (w1, some (u, t)) =>
     let us := w1.users.get u
@@ -335,7 +338,7 @@ def cycleStep (sc : Scripts) (w : World) : World × List Ev :=
   let pending := hasPending w
   let w1 := { w with cycle := n, users := grantAll w.users w.slots }
   let (w2, e2) := processIO w1
-  let (w3, e3) := cmdLoop sc (cu + 1) w2
+  let (w3, e3) := cmdLoop sc (NV.Gen.C12.loopCalls cu w.maxUsers) w2
   (w3, [Ev.begin n, Ev.poll n (!pending)] ++ e2 ++ e3 ++
         (if w3.crashed then [Ev.crash "all_users[s_next_user] out of range"] else [Ev.endc n w3.maxUsers (layout w3)]))
 
